@@ -384,6 +384,28 @@ func (h *Handler) closeConnection(streamID uint64, peerID identity.AgentID, err 
 	}
 }
 
+// CloseConnectionsForPeer closes and forgets every connection that was opened
+// on behalf of the given peer. It is called when that peer disconnects, so
+// that its tunnels stop consuming the connection limit. Returns the number
+// of connections closed.
+func (h *Handler) CloseConnectionsForPeer(peerID identity.AgentID) int {
+	h.mu.Lock()
+	var closed []*ActiveConnection
+	for streamID, ac := range h.connections {
+		if ac.RemoteID == peerID {
+			delete(h.connections, streamID)
+			h.connCount.Add(-1)
+			closed = append(closed, ac)
+		}
+	}
+	h.mu.Unlock()
+
+	for _, ac := range closed {
+		ac.Close()
+	}
+	return len(closed)
+}
+
 // removeConnection removes a connection from tracking.
 func (h *Handler) removeConnection(streamID uint64) *ActiveConnection {
 	h.mu.Lock()
